@@ -60,10 +60,10 @@ Print Assumptions privileges_refuted_without_link_check.
 (* Rm / RemoveWithContext / RemoveWithContextAndExclusionPatterns / RemoveWithPrivileges (success path):
    every entry that is not at or below p — in particular everything reachable from the tree only through a link —
    is exactly what it was: same kind, same content, same link target. *)
-Theorem remove_confined : forall excl_name excl_path cancelled fuel s p,
+Theorem remove_confined : forall trailing excl_name excl_path cancelled fuel s p,
   dirs_above s p ->
   forall q, ~ under p q ->
-  lookup (fst (remove_top excl_name excl_path Gen.rm cancelled fuel s p)) q = lookup s q.
+  lookup (fst (remove_top excl_name excl_path Gen.rm cancelled trailing fuel s p)) q = lookup s q.
 Proof. by_rm remove_confined_l. Qed.
 Print Assumptions remove_confined.
 
@@ -79,9 +79,9 @@ Print Assumptions clean_dir_confined.
 (* ---- termination: with Lstat first the recursion only descends into real directories, so fuel bounded by the number
    of entries at or below p is always enough (EFuel is the model's mark of "did not come back") ---- *)
 
-Theorem remove_terminates : forall excl_name excl_path cancelled fuel s p,
+Theorem remove_terminates : forall trailing excl_name excl_path cancelled fuel s p,
   dirs_above s p -> size_below s p < fuel ->
-  snd (remove_top excl_name excl_path Gen.rm cancelled fuel s p) <> Err EFuel.
+  snd (remove_top excl_name excl_path Gen.rm cancelled trailing fuel s p) <> Err EFuel.
 Proof. by_rm remove_terminates_l. Qed.
 Print Assumptions remove_terminates.
 
@@ -96,11 +96,11 @@ Print Assumptions clean_dir_terminates.
 
 (* no exclusion, live context, sufficient fuel: the call SUCCEEDS and nothing is left at or below p — links (dangling
    or not) included, since [lookup] does not follow them.  No premise about the result is needed. *)
-Theorem remove_succeeds_and_is_complete : forall excl_name excl_path fuel s p,
+Theorem remove_succeeds_and_is_complete : forall trailing excl_name excl_path fuel s p,
   (forall n, excl_name n = false) -> (forall q, excl_path q = false) ->
   wf s -> dirs_above s p -> size_below s p < fuel ->
-  snd (remove_top excl_name excl_path Gen.rm false fuel s p) = Ok /\
-  forall q, under p q -> lookup (fst (remove_top excl_name excl_path Gen.rm false fuel s p)) q = None.
+  snd (remove_top excl_name excl_path Gen.rm false trailing fuel s p) = Ok /\
+  forall q, under p q -> lookup (fst (remove_top excl_name excl_path Gen.rm false trailing fuel s p)) q = None.
 Proof. by_rm remove_succeeds_l. Qed.
 Print Assumptions remove_succeeds_and_is_complete.
 
@@ -114,13 +114,13 @@ Proof. by_rm clean_dir_succeeds_l. Qed.
 Print Assumptions clean_dir_succeeds_and_is_complete.
 
 (* the conditional form, for any fuel and either state of the context: whenever the call reports success *)
-Theorem remove_complete : forall excl_name excl_path cancelled fuel s p,
+Theorem remove_complete : forall trailing excl_name excl_path cancelled fuel s p,
   (forall n, excl_name n = false) -> (forall q, excl_path q = false) ->
   wf s -> dirs_above s p ->
-  snd (remove_top excl_name excl_path Gen.rm cancelled fuel s p) = Ok ->
-  forall q, under p q -> lookup (fst (remove_top excl_name excl_path Gen.rm cancelled fuel s p)) q = None.
+  snd (remove_top excl_name excl_path Gen.rm cancelled trailing fuel s p) = Ok ->
+  forall q, under p q -> lookup (fst (remove_top excl_name excl_path Gen.rm cancelled trailing fuel s p)) q = None.
 Proof.
-  by_rm (fun en ep c fuel s p Hen Hep Hwf Hd Hok => remove_complete_l en ep Hen Hep c fuel s p p Hwf Hd Hok).
+  by_rm (fun (tr : bool) en ep c fuel s p Hen Hep Hwf Hd Hok => remove_complete_l en ep Hen Hep c fuel s p p Hwf Hd Hok).
 Qed.
 Print Assumptions remove_complete.
 
@@ -137,10 +137,10 @@ Print Assumptions clean_dir_complete.
    [protected]: p itself when the caller's path is excluded; below p, an entry whose own name is excluded or that lies
    below a directory whose name is excluded.  Such an entry survives unchanged and all its ancestors remain directories,
    whatever the call returns. *)
-Theorem remove_keeps_excluded : forall excl_name excl_path cancelled fuel s p,
+Theorem remove_keeps_excluded : forall trailing excl_name excl_path cancelled fuel s p,
   wf s -> dirs_above s p ->
   forall q, protected excl_name excl_path p q -> lookup s q <> None ->
-  survives_with_ancestors s (fst (remove_top excl_name excl_path Gen.rm cancelled fuel s p)) q.
+  survives_with_ancestors s (fst (remove_top excl_name excl_path Gen.rm cancelled trailing fuel s p)) q.
 Proof. by_rm remove_keeps_excluded_l. Qed.
 Print Assumptions remove_keeps_excluded.
 
@@ -179,9 +179,9 @@ Print Assumptions gc_terminates.
    replays these witnesses (tree/sub/lnk -> outside + tree/dangling; tree/a/up -> tree) on every run ---- *)
 Theorem remove_refuted_without_lstat :
   exists s p q, dirs_above s p /\ ~ under p q /\
-    snd (remove_top noex_n noex_p before_fix_rm false 10 s p) = Ok /\
-    lookup (fst (remove_top noex_n noex_p before_fix_rm false 10 s p)) q <> lookup s q /\     (* an outside file is deleted *)
-    lookup (fst (remove_top noex_n noex_p before_fix_rm false 10 s p)) p <> None.              (* and the tree is still there *)
+    snd (remove_top noex_n noex_p before_fix_rm false false 10 s p) = Ok /\
+    lookup (fst (remove_top noex_n noex_p before_fix_rm false false 10 s p)) q <> lookup s q /\     (* an outside file is deleted *)
+    lookup (fst (remove_top noex_n noex_p before_fix_rm false false 10 s p)) p <> None.              (* and the tree is still there *)
 Proof.
   exists witness, [nm 3], [nm 1; nm 2].
   destruct without_lstat_outside_deleted as [H1 [H2 [H3 H4]]].
@@ -195,18 +195,36 @@ Print Assumptions remove_refuted_without_lstat.
    when the directories have several entries) *)
 Theorem remove_terminates_refuted_without_lstat :
   exists s p, dirs_above s p /\ size_below s p < 4 /\
-    snd (remove_top noex_n noex_p Gen.rm false 4 s p) = Ok /\
-    snd (remove_top noex_n noex_p before_fix_rm false 4 s p) = Err EFuel /\
-    snd (remove_top noex_n noex_p before_fix_rm false 30 s p) = Err EFuel.
+    snd (remove_top noex_n noex_p Gen.rm false false 4 s p) = Ok /\
+    snd (remove_top noex_n noex_p before_fix_rm false false 4 s p) = Err EFuel /\
+    snd (remove_top noex_n noex_p before_fix_rm false false 30 s p) = Err EFuel.
 Proof.
   exists loop_witness, [nm 3]. destruct loop_witness_facts as [H0 [H1 [H2 H3]]].
   split; [exact loop_witness_dirs_above|]. split; [rewrite H0; repeat constructor|]. repeat split; assumption.
 Qed.
 Print Assumptions remove_terminates_refuted_without_lstat.
 
+(* the code that does not clean the path first: Rm("tree/link/") — a link to an outside directory named with a trailing
+   separator — deletes the content of the target, fails with "not a directory" and leaves the link; with the generated
+   facts (path cleaned) the same call removes the link and nothing else.  Replayed by the harness on every run. *)
+Theorem remove_refuted_with_trailing_separator :
+  exists s p q, dirs_above s p /\ ~ under p q /\
+    lookup (fst (remove_top noex_n noex_p uncleaned_rm false true 10 s p)) q <> lookup s q /\
+    lookup (fst (remove_top noex_n noex_p uncleaned_rm false true 10 s p)) p <> None /\
+    lookup (fst (remove_top noex_n noex_p Gen.rm false true 10 s p)) q = lookup s q /\
+    lookup (fst (remove_top noex_n noex_p Gen.rm false true 10 s p)) p = None.
+Proof.
+  exists trailing_witness, [nm 3; nm 5], [nm 1; nm 2].
+  destruct trailing_witness_facts as [H1 [_ [H3 [H4 H5]]]].
+  split; [exact trailing_witness_dirs_above|]. split; [intros [r H]; simpl in H; inversion H|].
+  split; [rewrite H1; discriminate|]. split; [rewrite H3; discriminate|].
+  pattern Gen.rm; apply with_rm_ok; [vm_compute; reflexivity|]. split; [rewrite H4; reflexivity | exact H5].
+Qed.
+Print Assumptions remove_refuted_with_trailing_separator.
+
 (* ---- non-vacuity ---- *)
 Example c04_nonvacuous_remove :
-  let r := remove_top noex_n noex_p Gen.rm false 10 witness [nm 3] in
+  let r := remove_top noex_n noex_p Gen.rm false false 10 witness [nm 3] in
   snd r = Ok /\ lookup (fst r) [nm 1; nm 2] = Some (EFile 7) /\ lookup (fst r) [nm 3] = None /\
   lookup (fst r) [nm 3; nm 6] = None /\ lookup (fst r) [nm 1] = Some EDir.
 Proof. vm_compute. repeat split; reflexivity. Qed.
@@ -214,13 +232,13 @@ Proof. vm_compute. repeat split; reflexivity. Qed.
 (* name-based rule: excluding the NAME of the link keeps it and its ancestors; excluding only the caller's path keeps
    the (emptied) root and nothing below it *)
 Example c04_nonvacuous_excluded :
-  let r := remove_top (fun n => name_eqb n (nm 5)) (fun q => path_eqb q [nm 5]) Gen.rm false 10 witness [nm 3] in
+  let r := remove_top (fun n => name_eqb n (nm 5)) (fun q => path_eqb q [nm 5]) Gen.rm false false 10 witness [nm 3] in
   snd r = Ok /\ lookup (fst r) [nm 3; nm 4; nm 5] = Some (ELink [nm 1]) /\ lookup (fst r) [nm 3; nm 4] = Some EDir /\
   lookup (fst r) [nm 3] = Some EDir /\ lookup (fst r) [nm 3; nm 6] = None.
 Proof. vm_compute. repeat split; reflexivity. Qed.
 
 Example c04_nonvacuous_root_excluded :
-  let r := remove_top noex_n (fun q => path_eqb q [nm 3]) Gen.rm false 10 witness [nm 3] in
+  let r := remove_top noex_n (fun q => path_eqb q [nm 3]) Gen.rm false false 10 witness [nm 3] in
   snd r = Ok /\ lookup (fst r) [nm 3] = Some EDir /\ children (fst r) [nm 3] = [] /\ lookup (fst r) [nm 1; nm 2] = Some (EFile 7).
 Proof. vm_compute. repeat split; reflexivity. Qed.
 
